@@ -357,6 +357,206 @@ def judge(case, obs, pid=PID):
     return v
 
 
+# --------------------------------------------------------------------------- scripted multi-node histories
+# One global list of steps, each executed by one named node while all others (and the master) keep running their application
+# loop: joins, releases, re-joins, sends to node ids and lookups in every enabled order (generated below), judged step by step
+# against a reference of "who is connected where" built from the results and the master's table.
+def run_scen(case):
+    ids = case["ids"]
+    net = copy.deepcopy(template(ids, case["cost"]))
+    net.w.activate()
+    H.reset_frame_ids()
+    net.lat = N.LAT[case["lat"]]
+    w = net.w
+    master = net.nodes["m"]
+    for nid, addr in case.get("prefill", []):
+        master.set_address(nid, addr)  # the documented static assignment: these addresses are taken (by nodes that are out of range)
+    steps = [tuple(x) for x in case["steps"]]
+    timeout = case.get("timeout", 3.0)
+    cur = [0]
+    obs = {"log": [], "c07": []}
+
+    def hook(key, node, radio):
+        bad = N.listening_violations(node, radio)
+        if bad:
+            obs["c07"].append((key, "update", tuple(bad)))
+
+    def script(i, k):
+        def f(ctx):
+            n = net.nodes[i]
+            ctx.wait(1 * MS + k * 300 * US)
+            while cur[0] < len(steps):
+                idx = cur[0]
+                actor, op, arg = steps[idx]
+                if actor != i:
+                    net.serve(ctx, i, 5 * MS, hook)
+                    continue
+                t0 = w.now
+                msg = None
+                if op in ("join", "rejoin"):
+                    r = n.renew_address(timeout)
+                elif op == "release":
+                    r = n.release_address()
+                elif op == "send":
+                    msg = H.pattern(5 + idx % 7, case.get("seed", 0), 30 + idx)
+                    r = n.send(arg, 10 + idx, msg)
+                elif op == "lookup":
+                    r = n.lookup_address(arg)
+                else:
+                    raise RuntimeError("unknown step %r" % (op,))
+                dt = w.now - t0
+                bad = N.listening_violations(n, net.radios[i])
+                if bad:
+                    obs["c07"].append((i, op, tuple(bad)))
+                net.serve(ctx, i, 40 * MS, hook)  # one request in flight: let it settle before the next step starts
+                obs["log"].append(dict(step=idx, actor=i, op=op, arg=arg, ret=r, dt=dt, addr=n.node_address, msg=msg, mtype=10 + idx,
+                                       table=dict(master.dhcp_dict), addrs={j: net.nodes[j].node_address for j in ids}))
+                cur[0] = idx + 1
+            net.serve(ctx, i, 120 * MS, hook)
+        return f
+
+    net.run({i: script(i, k) for k, i in enumerate(ids)}, idle_hook=hook)
+    obs["aborted"] = w.aborted
+    obs["exc"] = {k: type(e).__name__ + ": " + str(e)[:80] for k, e in net.exc.items()}
+    obs["queues"] = net.queues()
+    obs["table_end"] = dict(master.dhcp_dict)
+    obs["npkts"] = len(net.air())
+    obs["ncoll"] = sum(1 for p in net.air() if p.collided)
+    obs["virt_s"] = w.now / 1e9
+    obs["faults"] = 0
+    return obs
+
+
+def judge_scen(case, obs, pid=PID):
+    ids = case["ids"]
+    v = []
+    prefill = {nid: addr for nid, addr in case.get("prefill", [])}
+    if obs["aborted"]:
+        v.append(("%s/scenario:nontermination" % pid, "virtual-time horizon hit in %r" % (case["steps"],)))
+    for key, e in obs["exc"].items():
+        v.append(("%s/scenario:exception:%s:%s" % (pid, "master" if key == "m" else "node", e.split(":")[0]), "%s raised %s in %r" % (key, e, case["steps"])))
+    conn = {}  # reference: id -> address of the nodes that are connected right now
+    leases = dict(prefill)  # reference: what the master has been told (a release that cannot reach it leaves a stale lease)
+
+    def reachable(a):
+        """every ancestor of address a is the address of a connected node (or the master)"""
+        a = N.parent_of(a)
+        while a:
+            if a not in conn.values():
+                return False
+            a = N.parent_of(a)
+        return True
+
+    hist = []
+    for e in obs["log"]:
+        i, op, arg, r = e["actor"], e["op"], e["arg"], e["ret"]
+        hist.append("%s(%s%s)" % (op, i, "" if arg is None else "->%s" % arg))
+        where = " [history: %s]" % " ".join(hist)
+        shape = "%s-after-%s" % (op, "+".join(sorted({h.split("(")[0] for h in hist[:-1]})) or "nothing")
+        if op in ("join", "rejoin"):
+            others = {a for j, a in conn.items() if j != i}
+            taken = set(prefill.values()) | others
+            free_l1 = any(x not in taken for x in range(1, 6))
+            relay_ok = any(reachable(a) for a in others)
+            conn.pop(i, None)
+            if not (free_l1 or relay_ok):
+                continue  # nowhere to join: None is the honest answer
+            if not valid_addr(r):
+                v.append(("%s/scenario:join-failed:%s" % (pid, shape), "renew_address() of id %d returned %r after %.0f ms on a loss-free medium%s" % (i, r, e["dt"] / 1e6, where)))
+                continue
+            if e["addr"] != r:
+                v.append(("%s/scenario:join-address-mismatch:%s" % (pid, shape), "renew_address() returned %o, node_address is %o%s" % (r, e["addr"], where)))
+            if e["table"].get(i) != r:
+                v.append(("%s/scenario:join-not-in-table:%s" % (pid, shape), "id %d was given %o, the master's table says %r%s" % (i, r, e["table"].get(i), where)))
+            if r in taken:
+                v.append(("%s/scenario:join-address-in-use:%s" % (pid, shape), "id %d was given %o which another node holds%s" % (i, r, where)))
+            if e["dt"] > case.get("timeout", 3.0) * 1e9 + 50 * MS:
+                v.append(("%s/scenario:join-late:%s" % (pid, shape), "renew_address() took %.0f ms%s" % (e["dt"] / 1e6, where)))
+            conn[i] = r
+            leases[i] = r
+        elif op == "release":
+            if i not in conn:
+                continue
+            ok = reachable(conn[i])
+            a0 = conn.pop(i)
+            if not ok:
+                continue  # the release cannot reach the master: only termination is claimed
+            leases.pop(i, None)
+            if r is not True or e["addr"] != O("4444"):
+                v.append(("%s/scenario:release-result:%s" % (pid, shape), "release_address() of id %d returned %r, node_address %o%s" % (i, r, e["addr"], where)))
+            if e["table"].get(i) == a0:
+                v.append(("%s/scenario:release-still-leased:%s" % (pid, shape), "after the release the master still leases %o to id %d%s" % (a0, i, where)))
+        elif op == "send":
+            if i not in conn or arg not in conn or not reachable(conn[i]) or not reachable(conn[arg]):
+                continue  # no route: only termination / no exception is claimed
+            want = (conn[i], conn[arg], e["mtype"], e["msg"])
+            got = {k: [g for g in q if g[2] == e["mtype"]] for k, q in obs["queues"].items()}
+            holders = sorted(str(k) for k, q in got.items() if q)
+            if r is not True:
+                v.append(("%s/scenario:send-false:%s" % (pid, shape), "send() from id %d to id %d returned %r%s" % (i, arg, r, where)))
+            elif holders != [str(arg)]:
+                v.append(("%s/scenario:send-misdelivered:%s" % (pid, shape), "the message from id %d for id %d (at %o) ended up in the queue(s) of %s%s" % (
+                    i, arg, conn[arg], holders or "nobody", where)))
+            elif got[arg] != [want]:
+                v.append(("%s/scenario:send-altered:%s" % (pid, shape), "id %d queued %r, sent %r%s" % (arg, got[arg], want, where)))
+        elif op == "lookup":
+            if i not in conn or not reachable(conn[i]):
+                continue
+            want = leases.get(arg, -2)
+            if r != want:
+                v.append(("%s/scenario:lookup:%s" % (pid, shape), "lookup_address(%d) by id %d returned %r, the mapping is %r%s" % (arg, i, r, want, where)))
+    for key, call, bad in obs["c07"]:
+        v.append(("%s/not-listening:%s:%s" % (pid, call, bad[0]), "node %s after %s: %s" % (key, call, ",".join(bad))))
+    return v
+
+
+def scen_cases(tier, seed):
+    """generated histories: a fixed opening (A and B join, A sends to B), then every enabled sequence of `depth` membership
+    changes among three nodes, then a closing round of sends / lookups between all connected pairs"""
+    A, B, C = 1, 2, 3
+    opening = [(A, "join", None), (B, "join", None), (A, "send", B)]
+    cases = []
+    depth = 4 if tier == "quick" else 5
+
+    def enabled(conn):
+        ops = []
+        for x in (A, B, C):
+            if x in conn:
+                ops.append((x, "release", None))
+                ops.append((x, "rejoin", None))
+            else:
+                ops.append((x, "join", None))
+        return ops
+
+    def rec(seq, conn):
+        if len(seq) == depth:
+            closing = []
+            cl = sorted(conn)
+            for x in cl:
+                for y in cl:
+                    if x != y:
+                        closing.append((x, "send", y))
+            if cl:
+                closing += [(cl[0], "lookup", y) for y in (A, B, C)]
+            yield opening + seq + closing
+            return
+        for op in enabled(conn):
+            c2 = set(conn)
+            if op[1] == "release":
+                c2.discard(op[0])
+            else:
+                c2.add(op[0])
+            yield from rec(seq + [op], c2)
+
+    k = 0
+    for prefill in ([], [[201, 1], [202, 2], [203, 3], [204, 4]]):
+        for steps in rec([], {A, B}):
+            k += 1
+            # with one free level-1 slot the later joiners sit behind the first one (level 2): its release orphans them
+            cases.append(dict(scen=True, ids=[A, B, C], prefill=prefill, steps=[list(x) for x in steps], cost=k % 4, lat=(k // 4) % 2, seed=seed))
+    return cases
+
+
 def record(case, obs, rep, trace):
     rep.case()
     rep.traces += 1
@@ -373,9 +573,23 @@ def record(case, obs, rep, trace):
         rep.violation(sig, what, {"case": case, "choices": [list(t) for t in trace]})
 
 
+def record_scen(case, obs, rep):
+    rep.case()
+    rep.traces += 1
+    rep.transitions += obs["npkts"]
+    rep.part("scenario", executions=1, packets=obs["npkts"], steps=len(obs["log"]), virtual_seconds=round(obs["virt_s"], 3))
+    rep.outcome("scen:%s" % ",".join("%s=%s" % (e["op"][0], "ok" if (e["ret"] is True or valid_addr(e["ret"]) or (e["op"] == "lookup" and e["ret"] >= 0)) else "no") for e in obs["log"][3:8]))
+    rep.nt(repr(sorted(case.items(), key=str)))
+    for sig, what in judge_scen(case, obs):
+        rep.violation(sig, what, {"case": case})
+
+
 def w_cases(item, rep):
     cases, bound = item
     for case in cases:
+        if case.get("scen"):
+            record_scen(case, run_scen(case), rep)
+            continue
         if bound == 0:
             record(case, run_case(case), rep, [])
         else:
@@ -438,11 +652,15 @@ def build_items(tier, seed):
     items.append(([dict(ids=[5], offsets=[0], cost=0, lat=0, seed=seed, script=False, timeout=1.2, tail=100, fault_mode="forgood", renew_connected=False,
                         max_execs=120 if tier == "quick" else 1000)], 1 if tier == "quick" else 2))
     items.sort(key=lambda it: -(len(it[0][0]["ids"]) + 10 * it[1]))
+    sc = scen_cases(tier, seed)
+    items += [(sc[i:i + 6], 0) for i in range(0, len(sc), 6)]
     return items
 
 
 def run(tier, seed, rep, only=None):
     items = build_items(tier, seed)
+    if only == "scen":
+        items = [it for it in items if it[0][0].get("scen")]
     if only == "small":
         items = [it for it in items if len(it[0][0]["ids"]) <= 2 and it[1] == 0]
     pmap(w_cases, items, rep)
@@ -468,6 +686,13 @@ def run(tier, seed, rep, only=None):
 def replay(data):
     r = data["replay"]
     case = r["case"]
+    if case.get("scen"):
+        obs = run_scen(case)
+        for e in obs["log"]:
+            print({k: e[k] for k in ("step", "actor", "op", "arg", "ret", "addr", "table")})
+        viol = judge_scen(case, obs, data.get("property", PID))
+        want = data.get("signature")
+        return [(s, w) for s, w in viol if s == want] or viol
     ch = Chooser([tuple(t) for t in r["choices"]]) if r.get("choices") else None
     obs = run_case(case, ch)
     print({k: v for k, v in obs.items() if k not in ("queues",)})
